@@ -237,6 +237,12 @@ class _TokenIntrospectionResource:
         token = body.get("token")
         if not isinstance(token, str) or not token or len(token) > _MAX_TOKEN_CHARS:
             return None
+        try:
+            # JSON can spell a lone surrogate ("\ud800"); such a string is not a
+            # credential anyone could have been issued and cannot be digested.
+            token.encode("utf-8")
+        except UnicodeEncodeError:
+            return None
         return token
 
     def on_post(self, req: falcon.Request, resp: falcon.Response) -> None:
